@@ -407,6 +407,13 @@ fn cti_registry(cfg: &Cfg, rep: &mut Report, h: u64, steps: usize, grow: bool) {
         let m: Map<u32, SVec<Address>> = getv!(rep, "topics-and-issuers", e, &c, "get_claim_topics_and_issuers", args!(e));
         let mk: BTreeSet<u32> = m.keys().iter().collect();
         rep.check("ref", mk == topics, "C20/ref/claim-topics-and-issuers/map-keys", || format!("{mk:?} vs {topics:?}"));
+        // ... and the issuer list under every key
+        for (x, v) in m.iter() {
+            let gv: Vec<usize> = v.iter().map(|a| issuers.iter().position(|y| *y == a).unwrap_or(usize::MAX)).collect();
+            let (gs, nd) = as_set(&gv);
+            let want_is: BTreeSet<usize> = it.iter().filter(|(_, s)| s.contains(&x)).map(|(i, _)| *i).collect();
+            rep.check("ref", gs == want_is && nd, "C20/ref/claim-topics-and-issuers/map-values", || format!("get_claim_topics_and_issuers: topic {x} -> issuers {gv:?}, model {want_is:?}"));
+        }
         rep.evaluations += (nt as usize + ni + 3) as u64;
     }
     rep.end_history();
@@ -754,6 +761,9 @@ fn documents(cfg: &Cfg, rep: &mut Report, h: u64, steps: usize, to_max: bool) {
             for b in 0..4u32 {
                 let v: SVec<(BytesN<32>, Document)> = getv!(rep, "documents", e, &c, "get_documents", args!(e, b));
                 total += v.len();
+                for (nm, d) in v.iter() {
+                    check_doc(rep, &nm, &d, "bucket listing");
+                }
             }
             rep.check("ref", total == cnt, "C20/ref/documents/bucket-listing", || format!("buckets hold {total} documents, count {cnt}"));
         }
